@@ -4,7 +4,7 @@
 (* clients that edit locally, send their unconfirmed steps when they are    *)
 (* up to date, and otherwise receive new steps and rebase their unconfirmed *)
 (* steps over them (prosemirror-collab's protocol; the reason Mapping has   *)
-(* mirrors).  All documents share the root attributes <<>>.                 *)
+(* mirrors).  A document value is a snapshot [d, ra]: tokens + root attrs.  *)
 (*                                                                          *)
 (*   auth : [doc, steps : Seq(step), by : Seq(client)]                      *)
 (*   cl   : [client -> [doc, version, unconf : Seq([step, inv])]]           *)
@@ -16,54 +16,58 @@
 (***************************************************************************)
 EXTENDS PMStep
 
-RA0 == <<>>
 NoStep == [type |-> "none"]
+(* a document value = tokens + root attributes (doc-attr steps change the latter) *)
+Snap(d, ra) == [d |-> d, ra |-> ra]
+ApplyS(s, x) == LET r == Apply(s, x.d, x.ra) IN
+                IF r.ok THEN [ok |-> TRUE, x |-> Snap(r.doc, r.ra)] ELSE [ok |-> FALSE, x |-> x]
+InvertS(s, x) == InvertStep(s, x.d, x.ra)
 
 (* fold a sequence of steps over a document, collecting maps; all must apply *)
 RECURSIVE ApplyAll(_, _, _)
-ApplyAll(ss, d, mp) ==
-  IF ss = <<>> THEN [ok |-> TRUE, doc |-> d, mp |-> mp]
-  ELSE LET r == Apply(Head(ss), d, RA0) IN
-       IF ~r.ok THEN [ok |-> FALSE, doc |-> d, mp |-> mp]
-       ELSE ApplyAll(Tail(ss), r.doc, MAppendMap(mp, GetMap(Head(ss)), -1))
+ApplyAll(ss, x, mp) ==
+  IF ss = <<>> THEN [ok |-> TRUE, doc |-> x, mp |-> mp]
+  ELSE LET r == ApplyS(Head(ss), x) IN
+       IF ~r.ok THEN [ok |-> FALSE, doc |-> x, mp |-> mp]
+       ELSE ApplyAll(Tail(ss), r.x, MAppendMap(mp, GetMap(Head(ss)), -1))
 
 InversesOf(unconf) == [i \in 1..Len(unconf) |-> unconf[Len(unconf) + 1 - i].inv]
 
 RECURSIVE Reapply(_, _, _, _, _, _)
 (* i-th unconfirmed step; mapFrom = index (0-based) of the first map to map it through *)
-Reapply(unconf, i, mapFrom, d, mp, out) ==
-  IF i > Len(unconf) THEN [doc |-> d, mp |-> mp, unconf |-> out]
+Reapply(unconf, i, mapFrom, x, mp, out) ==
+  IF i > Len(unconf) THEN [doc |-> x, mp |-> mp, unconf |-> out]
   ELSE LET mapped == MapStep(unconf[i].step, MSlice(mp, mapFrom, Len(mp.maps)))
-           r == IF mapped.type = "none" THEN Fail ELSE Apply(mapped, d, RA0) IN
+           r == IF mapped.type = "none" THEN [ok |-> FALSE, x |-> x] ELSE ApplyS(mapped, x) IN
        IF r.ok
-       THEN Reapply(unconf, i + 1, mapFrom - 1, r.doc,
+       THEN Reapply(unconf, i + 1, mapFrom - 1, r.x,
                     MAppendMap(mp, GetMap(mapped), mapFrom - 1),
-                    Append(out, [step |-> mapped, inv |-> InvertStep(mapped, d, RA0)]))
-       ELSE Reapply(unconf, i + 1, mapFrom - 1, d, mp, out)
+                    Append(out, [step |-> mapped, inv |-> InvertS(mapped, x)]))
+       ELSE Reapply(unconf, i + 1, mapFrom - 1, x, mp, out)
 
-(* rebase the unconfirmed steps of a client whose document is d over the remote steps *)
-Rebase(d, unconf, remote) ==
-  LET undone == ApplyAll(InversesOf(unconf), d, EmptyMapping)
+(* rebase the unconfirmed steps of a client whose document is x over the remote steps *)
+Rebase(x, unconf, remote) ==
+  LET undone == ApplyAll(InversesOf(unconf), x, EmptyMapping)
       over == ApplyAll(remote, undone.doc, undone.mp) IN
-  IF ~undone.ok \/ ~over.ok THEN [ok |-> FALSE, doc |-> d, unconf |-> unconf]
+  IF ~undone.ok \/ ~over.ok THEN [ok |-> FALSE, doc |-> x, unconf |-> unconf]
   ELSE LET r == Reapply(unconf, 1, Len(unconf), over.doc, over.mp, <<>>) IN
        [ok |-> TRUE, doc |-> r.doc, unconf |-> r.unconf]
 
 (* the document a client would have with none of its unconfirmed steps *)
 ConfirmedDoc(c) == ApplyAll(InversesOf(c.unconf), c.doc, EmptyMapping)
 
-(* ---- the protocol as functions of a state S = [auth, cl] ---- *)
+(* ---- the protocol as functions of a state S = [auth, cl]; `base` is a Snap ---- *)
 StepsOf(unconf) == [i \in 1..Len(unconf) |-> unconf[i].step]
 InitState(base, clients) ==
   [auth |-> [doc |-> base, steps |-> <<>>, by |-> <<>>],
    cl |-> [c \in clients |-> [doc |-> base, version |-> 0, unconf |-> <<>>]]]
 (* a local edit: one step applied to the client's own document *)
 EditRes(S, c, s) ==
-  LET r == Apply(s, S.cl[c].doc, RA0) IN
+  LET r == ApplyS(s, S.cl[c].doc) IN
   IF ~r.ok THEN [ok |-> FALSE, S |-> S]
   ELSE [ok |-> TRUE,
-        S |-> [S EXCEPT !.cl[c].doc = r.doc,
-                        !.cl[c].unconf = Append(@, [step |-> s, inv |-> InvertStep(s, S.cl[c].doc, RA0)])]]
+        S |-> [S EXCEPT !.cl[c].doc = r.x,
+                        !.cl[c].unconf = Append(@, [step |-> s, inv |-> InvertS(s, S.cl[c].doc)])]]
 (* the authority accepts steps only from a client that has seen its whole log *)
 CanSend(S, c) == S.cl[c].unconf # <<>> /\ S.cl[c].version = Len(S.auth.steps)
 SendRes(S, c) ==
@@ -89,11 +93,11 @@ AuthReplaysOf(S, base) == LET r == ApplyAll(S.auth.steps, base, EmptyMapping) IN
    document exactly when no mark step is pending, and up to marks otherwise. *)
 NoMarks(d) == Unflag([i \in 1..Len(d) |-> [d[i] EXCEPT !.m = <<>>]])
 MarkPendingIn(unconf) == \E i \in 1..Len(unconf) : unconf[i].step.type \in {"addMark", "removeMark"}
-AgreeUpTo(exact, d1, d2) == NoMarks(d1) = NoMarks(d2) /\ (exact => d1 = d2)
+AgreeUpTo(exact, x1, x2) == NoMarks(x1.d) = NoMarks(x2.d) /\ x1.ra = x2.ra /\ (exact => x1 = x2)
 ConfirmedAgreeOf(S, base) == \A c \in DOMAIN S.cl :
   LET u == ConfirmedDoc(S.cl[c]) IN
   u.ok /\ AgreeUpTo(~MarkPendingIn(S.cl[c].unconf), u.doc, DocAtVersion(S, base, S.cl[c].version))
-AllValidOf(S) == Valid(S.auth.doc) /\ \A c \in DOMAIN S.cl : Valid(S.cl[c].doc) /\ Canon(S.cl[c].doc)
+AllValidOf(S) == Valid(S.auth.doc.d) /\ \A c \in DOMAIN S.cl : Valid(S.cl[c].doc.d) /\ Canon(S.cl[c].doc.d)
 ConvergedOf(S) == \A c \in DOMAIN S.cl :
   (S.cl[c].version = Len(S.auth.steps) /\ S.cl[c].unconf = <<>>) => S.cl[c].doc = S.auth.doc
 (* a rebase never fails: the inverses of one's own steps and the authority's steps always apply *)
